@@ -163,3 +163,15 @@ check('C09',
       '1.0, 2.0 and 3.1 parsers; the 1.0 results are additionally required to equal libxml2 (37 332 cases, no model/libxml2 disagreement).',
       'reference mc/models/strfn.py; case mapping is the Unicode default mapping of the Python runtime; locale collations are C19',
       'DESIGN.md section 3 C09')
+check('C10',
+      'bounded-exhaustive enumeration of lexical strings per type family and of the casting table cells against a transcription of the XSD lexical productions',
+      'For each of 46 built-in atomic types and both XSD versions: every token sequence of length <= 4 (thorough <= 5, binaries <= 7) over the alphabet of '
+      'its family (numeric: signs, digits, point, exponent markers, space, underscore, INF, NaN, a non-ASCII digit, a letter; boolean; hex; base64; names; '
+      'duration designators) or, for the nine date/time types, every combination of fields taken at min-1, min, max, max+1 and malformed widths with 15 '
+      'timezone forms around +-14:00; plus the exact bounds +-1 of every integer subtype and hand-listed near-valid forms. Five code paths must agree with '
+      'the lexical space of the model: xs:T($s), $s castable as xs:T, $s cast as xs:T, T.is_valid(s) and the Python constructor. For members: '
+      'string(xs:T($s)) is the canonical form, a fixed point, re-parses to a deep-equal value with an equal hash. Casting table: 71 source values of all '
+      '22 primitive types x 46 targets: castable / cast as / constructor agree, success matches F&O 19.1, the result string is the canonical form of the '
+      'model value; 12 value-preserving round trips.',
+      'reference mc/models/atomic.py; xs:anyURI / xs:NOTATION lexical spaces and error codes are not judged; fractional seconds beyond microseconds are outside the alphabet (implementation-defined precision)',
+      'DESIGN.md section 3 C10')
